@@ -15,10 +15,12 @@ pub mod c10;
 pub mod c11;
 pub mod c12;
 pub mod c13;
+pub mod c14;
+pub mod c15;
 pub mod c16;
 pub mod c17;
 
-pub const IDS: &[&str] = &["C01", "C02", "C03", "C04", "C05", "C06", "C07", "C08", "C09", "C10", "C11", "C12", "C13", "C16", "C17"];
+pub const IDS: &[&str] = &["C01", "C02", "C03", "C04", "C05", "C06", "C07", "C08", "C09", "C10", "C11", "C12", "C13", "C14", "C15", "C16", "C17"];
 
 macro_rules! dispatch {
     ($id:expr, $f:ident, $($arg:expr),*) => {
@@ -36,6 +38,8 @@ macro_rules! dispatch {
             "C11" => $f(&c11::C11, $($arg),*),
             "C12" => $f(&c12::C12, $($arg),*),
             "C13" => $f(&c13::C13, $($arg),*),
+            "C14" => $f(&c14::C14, $($arg),*),
+            "C15" => $f(&c15::C15, $($arg),*),
             "C16" => $f(&c16::C16, $($arg),*),
             "C17" => $f(&c17::C17, $($arg),*),
             other => {
